@@ -48,4 +48,20 @@ PROPS = {
         "trusted_base": COMMON_TB + SYNTAX_TB,
         "assumptions": ["theorems cover the lexer (tiling, boundaries) and text assembly (fragment faithfulness, order) for every input; the span arithmetic of the individual block parsers and of the analysis labels is covered by the correspondence run (every span of every event/diagnostic compared with the model) and by the oracle on the implementation, not by a theorem yet"],
     },
+    "C06": {
+        "gen": [CONSTS, CHARTABLE],
+        "trusted_base": COMMON_TB + SYNTAX_TB + ["external to the model (parameters): serde_yaml (front matter content is not interpreted; metadata and diagnostics that depend on it are excluded from the compared reply), check_std_entry on `>>` values (until the std-metadata model is plugged in its warnings are excluded from the compared reply), unicase folding (table extracted from the real crate on every run), converter key lookup (table extracted from Converter::bundled() on every run)"],
+        "assumptions": ["proved: intermediate-reference resolution stays in range; the other clauses of the invariant (C06_statement, kept at full strength) are decided per run by the invariant oracle on the implementation and by whole-recipe correspondence, not by a theorem yet"],
+    },
+    "C07": {
+        "gen": [CONSTS, CHARTABLE],
+        "trusted_base": COMMON_TB + SYNTAX_TB + ["external to the model (parameters): serde_yaml (front matter content is not interpreted; metadata and diagnostics that depend on it are excluded from the compared reply), check_std_entry on `>>` values (until the std-metadata model is plugged in its warnings are excluded from the compared reply), unicase folding (table extracted from the real crate on every run), converter key lookup (table extracted from Converter::bundled() on every run)"],
+        "assumptions": ["proved: validity definition, parse-error short-circuit, output kept without parse errors; soundness on well-formed recipes and completeness/placement of the 33 catalogued constructs are tested (planted constructs, oracle + model correspondence of every label), not proved"],
+    },
+    "C01": {
+        "gen": [CONSTS, CHARTABLE],
+        "trusted_base": COMMON_TB + SYNTAX_TB + ["external to the model (parameters): serde_yaml (front matter content is not interpreted; metadata and diagnostics that depend on it are excluded from the compared reply), check_std_entry on `>>` values (until the std-metadata model is plugged in its warnings are excluded from the compared reply), unicase folding (table extracted from the real crate on every run), converter key lookup (table extracted from Converter::bundled() on every run)"],
+        "assumptions": ["proved: value-level read-back (integers, decimals with arbitrary blank/comment padding), range gating, plain text runs; composition over components/steps/blocks/analysis (C01_statement) is tested on random abstract recipes x 4 spelling styles, not proved",
+                        "the spelling styles vary only what the documented syntax leaves free (DESIGN.md section 6 C01): spacing around tokens, comments between words, line wrapping in step text, CRLF, percent sign vs space before the unit under ADVANCED_UNITS"],
+    },
 }
